@@ -62,6 +62,26 @@ pub fn impl_enc(fields: &[(Tag, Vec<u8>)]) -> String {
     }
 }
 
+/// like `impl_enc`, for a caller that goes on after a rejected `add_field` (out of order / duplicate tag): the message
+/// must then encode as if the rejected call had never been made
+pub fn impl_enc_ignoring(fields: &[(Tag, Vec<u8>)]) -> String {
+    let r = guarded(|| {
+        let mut m = RtMessage::with_capacity(fields.len() as u32);
+        let mut rejected = 0;
+        for (t, v) in fields {
+            if m.add_field(*t, v).is_err() { rejected += 1; }
+        }
+        let e = m.encode().ok()?;
+        let f = m.encode_framed().ok()?;
+        Some(format!("ok {} {} {} {} rejected={}", hex(&e), hex(&f), m.encoded_size(), m.calculate_padding_length(), rejected))
+    });
+    match r {
+        Some(Some(s)) => s,
+        Some(None) => "err".to_string(),
+        None => "panic".to_string(),
+    }
+}
+
 fn fields_arg(fields: &[(Tag, Vec<u8>)]) -> String {
     if fields.is_empty() {
         return "-".to_string();
@@ -85,6 +105,7 @@ fn parse_fields(s: &str) -> Vec<(Tag, Vec<u8>)> {
 pub fn replay_one(out: &mut Out, op: &str, args: &[&str]) {
     match op {
         "dec" => out.case("dec", args, &impl_dec(&unhex(args[0]))),
+        "enci" => out.case("enci", args, &impl_enc_ignoring(&parse_fields(args[0]))),
         "disp" => out.case("disp", args, &impl_disp(&unhex(args[0]))),
         "enc" => out.case("enc", args, &impl_enc(&parse_fields(args[0]))),
         _ => {}
@@ -313,6 +334,22 @@ fn run_inner(ctx: &Ctx) {
         let e = encode_fields(&fields);
         emit_dec(&mut out, &e, true);
         valid_encodings.push(e);
+    }
+    // a message object that has REFUSED a field (out of order or duplicate) and is encoded afterwards (seeded change
+    // C05-r10: a running length counter bumped before the order check)
+    for i in 0..(if ctx.thorough { 1500 } else { 300 }) {
+        let mut fields = gen_valid(&mut r, 64, 512);
+        if fields.is_empty() { continue; }
+        // insert 1..3 fields that will be refused: a copy of an earlier tag, or a tag smaller than its predecessor
+        for _ in 0..r.range(1, 3) {
+            let at = r.range(1, fields.len() as u64) as usize;
+            let dup = fields[r.below(at as u64) as usize].0;
+            let l = 4 * r.below(20) as usize;
+            let val = r.bytes(l);
+            fields.insert(at, (dup, val));
+        }
+        let _ = i;
+        out.case("enci", &[&fields_arg(&fields)], &impl_enc_ignoring(&fields));
     }
     // the UNFRAMED decoder fed a framed message: magic + length word + a valid encoding (once and twice framed, exact
     // and off-by-four length words) — `from_bytes` decodes tag-value messages only; the framing belongs to the caller
